@@ -1,5 +1,7 @@
 package mathhelp
 
+import "math/bits"
+
 func IBetweenInc(f, p, q int64) bool {
 	if p <= q {
 		return p <= f && f <= q
@@ -23,6 +25,63 @@ func Bool2int(b bool) int {
 		return 1
 	}
 	return 0
+}
+
+// CmpProducts compares a*b with c*d without overflowing (-1, 0 or 1)
+func CmpProducts(a, b, c, d int64) int {
+	lNeg, lHi, lLo := mul128(a, b)
+	rNeg, rHi, rLo := mul128(c, d)
+	lZero, rZero := lHi == 0 && lLo == 0, rHi == 0 && rLo == 0
+	switch {
+	case lZero && rZero:
+		return 0
+	case lZero:
+		if rNeg {
+			return 1
+		}
+		return -1
+	case rZero:
+		if lNeg {
+			return -1
+		}
+		return 1
+	case lNeg != rNeg:
+		if lNeg {
+			return -1
+		}
+		return 1
+	}
+	mag := 0
+	switch {
+	case lHi != rHi:
+		mag = 1
+		if lHi < rHi {
+			mag = -1
+		}
+	case lLo != rLo:
+		mag = 1
+		if lLo < rLo {
+			mag = -1
+		}
+	}
+	if lNeg {
+		return -mag
+	}
+	return mag
+}
+
+// mul128 returns the sign and the 128 bits magnitude of a*b
+func mul128(a, b int64) (neg bool, hi, lo uint64) {
+	neg = (a < 0) != (b < 0)
+	hi, lo = bits.Mul64(abs64(a), abs64(b))
+	return neg, hi, lo
+}
+
+func abs64(a int64) uint64 {
+	if a < 0 {
+		return uint64(-a) // also correct for math.MinInt64
+	}
+	return uint64(a)
 }
 
 // FloorDiv divides rounding toward negative infinity
